@@ -285,6 +285,20 @@ def run(ctx):
                             except Exception as e:   # noqa
                                 got.append('ERR ' + type(e).__name__)
                             it = None
+                        # a later pass, and an iterator opened before the failure, deliver (at least) what had been handed over
+                        first_len = len([g for g in got if not isinstance(g, str)])
+                        try:
+                            again = [tuple(r) for r in view]
+                        except GenBoom:
+                            again = None
+                        except Exception as e:   # noqa
+                            again = 'ERR ' + type(e).__name__
+                        if passes == 1 and isinstance(again, list) and j >= 1 and again[:1 + min(j, nrows)] != [('a',)] + [(i,) for i in range(min(j, nrows))]:
+                            ctx.spec_fail('fromdicts|spill-file|rows-after-failure', 'after the generator behind fromdicts failed, a later pass no longer delivers the rows handed over before the failure',
+                                          {'nrows': nrows, 'generator_fails_at': j, 'first pass': repr(got), 'later pass': repr(again)})
+                        elif isinstance(again, str):
+                            ctx.spec_fail('fromdicts|spill-file|rows-after-failure', 'after the generator behind fromdicts failed, a later pass raises %s' % again,
+                                          {'nrows': nrows, 'generator_fails_at': j, 'first pass': repr(got)})
                         during = nfiles(tmpd)
                         del view
                         left = nfiles(tmpd, collect=True)
